@@ -320,14 +320,57 @@ def _thread_keeps(prog, rng):
                 it["thread"] = True
 
 
+def _deep_plain(prog):
+    """Plain (non-kept, non-class) functions called by another plain function that is itself called by something:
+    a load placed there sits two or more non-kept calls below the kept function (or entry) it belongs to."""
+    funcs = prog["funcs"]
+
+    def plain(n):
+        return funcs[n]["kind"] not in ("class", "data") and not funcs[n].get("path")
+
+    callers = {}
+    for n in sorted(funcs):
+        for it in funcs[n]["body"]:
+            if it["t"] in ("call", "ho") and it.get("f") in funcs:
+                callers.setdefault(it["f"], set()).add(n)
+    kept_targets = {it["f"] for n in funcs for it in funcs[n]["body"] if it["t"] == "keep"}
+    out = []
+    for n in sorted(funcs):
+        if not plain(n) or n in kept_targets:
+            continue
+        for c in sorted(callers.get(n, ())):
+            if plain(c) and c not in kept_targets and callers.get(c):
+                out.append(n)
+                break
+    return out
+
+
 def _add_loads(prog, rng, feat):
     """dds.load items at seeded placements: the loaded path may be produced earlier or later in the same
     evaluation, by another entry point (an earlier evaluation), or by nothing at all."""
     names = sorted(prog["funcs"])
     paths = all_paths(prog)
     nloads = rng.choice([1, 1, 2, 3])
+    deep = _deep_plain(prog) if feat.get("deep_loads") else []
+    if feat.get("deep_loads") and not deep:
+        # no chain of plain calls in this program: one is added below a kept function (kept -> f90 -> f91)
+        hosts = [n for n in names if prog["funcs"][n]["kind"] in ("data", "target") and not prog["funcs"][n].get("ill")]
+        if hosts:
+            host = rng.choice(hosts)
+            mod = prog["funcs"][host]["mod"]
+            for hn in ("f90", "f91"):
+                prog["funcs"][hn] = {"mod": mod, "kind": "plain", "params": [], "ver": 1, "ret": "tuple", "pad": 0,
+                                     "body": [], "comment": 0, "end": bool(feat.get("end_markers"))}
+                prog["order"].append(hn)
+            prog["funcs"]["f90"]["body"].append({"t": "call", "f": "f91", "form": "direct"})
+            hb = prog["funcs"][host]["body"]
+            hb.insert(rng.randrange(len(hb) + 1), {"t": "call", "f": "f90", "form": "direct"})
+            deep = ["f91"]
     for _ in range(nloads):
         fn = rng.choice([n for n in names if prog["funcs"][n]["kind"] != "class"])
+        if deep and rng.random() < 0.6:
+            # a load two or more plain calls below the kept function that owns it (seeded change C18g)
+            fn = rng.choice(deep)
         f = prog["funcs"][fn]
         own = {f.get("path")} | {it["path"] for it in f["body"] if it["t"] == "keep"}
         cand = [p for p in paths if p not in own]
